@@ -42,6 +42,9 @@ package xmlenc
 
 //@ contract Decrypt
 //@ requires el: ciphertextEl != nil
+//@ -- owed by every caller in the repository: a key that claims to be an RSA private key is one (a typed nil pointer
+//@ -- passes the decrypters' type assertion and is dereferenced: "wrong type is rejected" must not become a panic)
+//@ requires key: rsaKeyOK(key)
 
 //@ contract getCiphertext
 //@ requires el: encryptedKey != nil
@@ -69,6 +72,7 @@ package xmlenc
 //@ contract (CBC).Decrypt
 //@ requires el: ciphertextEl != nil
 //@ requires[cfg] cipher: e.cipher != nil
+//@ requires[cfg] key: rsaKeyOK(key)
 //@ -- framing, the mirror image of Encrypt: a key of exactly the cipher's size keys the block cipher; the first block of
 //@ -- the cipher value is the IV and everything after it is decrypted as a whole; the result is that plaintext with the
 //@ -- xmlenc padding stripped (with the padding lemma and CBC decrypt-after-encrypt = identity this is the round trip)
@@ -79,10 +83,15 @@ package xmlenc
 //@ assert@call[C10] CryptBlocks #1 (mode cipher.BlockMode, dst []byte, src []byte) uses ciphertext []byte, plaintext []byte decrypts_all_after_iv:
 //@    sameSlice(src, ciphertext) && sameSlice(dst, plaintext) && len(dst) == len(src)
 //@ assert@call[C10] stripPadding #1 (buf []byte) uses plaintext []byte strips_padding_of_plaintext: sameSlice(buf, plaintext)
+//@ -- the other direction: once key, cipher and cipher value are in hand, the only cipher values turned away before
+//@ -- decryption are those that are not IV + whole blocks OF THIS CIPHER (8 bytes for 3DES, 16 for AES)
+//@ assert@return[C10] #each (out []byte, rerr error) uses ct=ciphertext? []byte, ctSeen=reached:ciphertext bool, blk=block? cipher.Block, blkSeen=reached:block bool, modeSeen=reached:mode bool, lastErr=err? error rejects_only_broken_framing:
+//@    rerr != nil && ctSeen && blkSeen && !modeSeen && lastErr == nil ==> len(ct) < blk.BlockSize() || len(ct) % blk.BlockSize() != 0
 
 //@ contract (GCM).Decrypt
 //@ requires el: ciphertextEl != nil
 //@ requires[cfg] cipher: e.cipher != nil
+//@ requires[cfg] key: rsaKeyOK(key)
 //@ -- C11: every byte of the cipher value goes through the AEAD: the first NonceSize bytes as the nonce, all the rest as
 //@ -- the sealed text (so any modification is rejected by Open, assumed authentic), no additional data, and plaintext is
 //@ -- returned only when Open succeeded
